@@ -283,7 +283,12 @@ func (e *Engine) CrashCommit(t *kernel.Tape) string {
 // ---------------------------------------------------------------- Byzantine blocks
 
 // ByzKinds is the catalogue of re-spend attempts inside a block.
-var ByzKinds = []string{"dup-in-block", "replay-earlier", "nonce-gap", "reorder", "stale-fresh", "future-only", "ki-two-txs", "ki-later", "ki-dup-in-tx", "ki-pool-rival"}
+var ByzKinds = []string{"dup-in-block", "replay-earlier", "nonce-gap", "reorder", "stale-fresh", "future-only", "ki-two-txs", "ki-later", "ki-dup-in-tx", "ki-pool-rival",
+	// the same nonce games played with the ACCOUNT INPUT of a confidential
+	// (account -> hidden) transaction, and mixed with plain transfers
+	"fund-future-only", "fund-nonce-gap", "fund-reorder", "fund-stale", "fund-dup-in-block", "fund-replay-earlier", "fund-gap-after-transfer", "transfer-gap-after-fund",
+	// several inputs of which one is already spent on chain
+	"ki-multi-one-spent"}
 
 func (e *Engine) richUser(pick int) *User {
 	for i := range e.W.Users {
@@ -378,6 +383,105 @@ func (e *Engine) ByzBlock(kind string, t *kernel.Tape) string {
 				break
 			}
 		}
+	case "fund-future-only", "fund-nonce-gap", "fund-reorder", "fund-stale", "fund-dup-in-block", "fund-gap-after-transfer", "transfer-gap-after-fund":
+		if e.U == nil {
+			return ""
+		}
+		var u *User
+		for i := range e.W.Users {
+			x := e.W.Users[(pick+i)%len(e.W.Users)]
+			if e.remaining(x.Addr).Cmp(lkCoins(3000)) >= 0 && (kind != "fund-stale" || e.committedNonce(x.Addr) > 0) {
+				u = x
+				break
+			}
+		}
+		if u == nil {
+			break
+		}
+		next := e.committedNonce(u.Addr) + uint64(len(e.offeredBy[u.Addr]))
+		fund := func(n uint64, v int) types.Tx {
+			tx, err := e.FundTx(u, n, []*Wallet{e.U.Wallets[(pick+v)%len(e.U.Wallets)]}, []*big.Int{lkCoins(int64(100 + (pick+v)%400))})
+			if err != nil {
+				return nil
+			}
+			return tx
+		}
+		plain := func(n uint64) types.Tx {
+			return u.Transfer(n, e.W.Sinks[pick%len(e.W.Sinks)], big.NewInt(int64(5000+pick%1000)), 0, nil)
+		}
+		ahead := uint64(1 + pick%3)
+		var add []types.Tx
+		switch kind {
+		case "fund-future-only":
+			add = []types.Tx{fund(next+ahead, 0)}
+		case "fund-nonce-gap":
+			add = []types.Tx{fund(next, 0), fund(next+1+ahead, 1)}
+		case "fund-reorder":
+			add = []types.Tx{fund(next+1, 0), fund(next, 1)}
+		case "fund-stale":
+			add = []types.Tx{fund(e.committedNonce(u.Addr)-1, 0)}
+		case "fund-dup-in-block":
+			f := fund(next, 0)
+			if f != nil {
+				add = []types.Tx{f, CopyTx(f)}
+			}
+		case "fund-gap-after-transfer":
+			add = []types.Tx{plain(next), fund(next+1+ahead, 0)}
+		case "transfer-gap-after-fund":
+			add = []types.Tx{fund(next, 0), plain(next + 1 + ahead)}
+		}
+		ok := len(add) > 0
+		for _, x := range add {
+			if x == nil {
+				ok = false
+			}
+		}
+		if ok {
+			txs = append(base, add...)
+		}
+	case "fund-replay-earlier":
+		var all []types.Tx
+		for _, b := range e.W.Blocks {
+			for _, tx := range b.Data.Txs {
+				if ut, isU := tx.(*types.UTXOTransaction); isU && acctInput(ut) != nil {
+					all = append(all, tx)
+				}
+			}
+		}
+		if len(all) > 0 {
+			old := CopyTx(all[pick%len(all)])
+			if pick%2 == 0 {
+				txs = append(types.Txs{old}, base...)
+			} else {
+				txs = append(base, old)
+			}
+		}
+	case "ki-multi-one-spent":
+		if e.U == nil {
+			return ""
+		}
+		for _, sp := range e.SpentOutputs() {
+			for _, o := range e.unspent() {
+				if o.Wallet != sp.Wallet || (o.KI != nil && inBase[*o.KI]) {
+					continue
+				}
+				us := e.U
+				pay := new(big.Int).Add(o.Amount, sp.Amount)
+				pay.Sub(pay, us.FeeUU)
+				pay.Sub(pay, lkCoins(2))
+				ins := []*Owned{o, sp}
+				if pick%2 == 0 {
+					ins = []*Owned{sp, o}
+				}
+				if tx, err := e.SpendTx(us.Wallets[o.Wallet], ins, 1+pick%3, pay, us.Wallets[pick%len(us.Wallets)], nil, pick); err == nil {
+					txs = append(base, tx)
+				}
+				break
+			}
+			if txs != nil {
+				break
+			}
+		}
 	case "ki-two-txs", "ki-dup-in-tx":
 		if e.U == nil {
 			return ""
@@ -404,6 +508,12 @@ func (e *Engine) ByzBlock(kind string, t *kernel.Tape) string {
 	case "ki-later":
 		if e.U == nil {
 			return ""
+		}
+		if o := e.byzTarget; o != nil {
+			if tx := spendOf(o, 2); tx != nil {
+				txs = append(base, tx)
+			}
+			break
 		}
 		for _, o := range e.U.Owned {
 			if o.KI == nil {
@@ -471,4 +581,95 @@ func (e *Engine) ByzBlock(kind string, t *kernel.Tape) string {
 		}
 	}
 	return kind
+}
+
+// WithdrawBlock commits another proposer's block whose only transaction is a
+// full hidden -> account withdrawal (it creates no confidential output, so the
+// block writes key images but no output records), lets 0-2 further blocks
+// pass (empty, or from the node's mempool), and then tries to spend the same
+// output again: through the mempool and in a Byzantine block; optionally the
+// node is restarted in between. Returns "" when nothing is spendable.
+func (e *Engine) WithdrawBlock(t *kernel.Tape) string {
+	if e.U == nil {
+		return ""
+	}
+	pick := t.Int(1 << 16)
+	after := t.Int(3)
+	emptyAfter := t.Bool(1, 2)
+	restart := t.Bool(1, 4)
+	cands := e.unspent()
+	var pool []*Owned
+	for _, o := range cands {
+		if !e.hasOpenSpend(o) {
+			pool = append(pool, o)
+		}
+	}
+	if len(pool) == 0 {
+		pool = cands
+	}
+	if len(pool) == 0 {
+		e.C.Probe("attack-no-material")
+		return ""
+	}
+	in := pool[pick%len(pool)]
+	to := e.W.Sinks[pick%len(e.W.Sinks)]
+	tx, err := e.SpendTx(e.U.Wallets[in.Wallet], []*Owned{in}, 1+pick%3, nil, nil, &to, pick)
+	if err != nil {
+		e.C.HarnessTrouble("full withdrawal: %v", err)
+		e.Stop()
+		return ""
+	}
+	m := e.noteSpend(e.record(nil, tx, "spendall"), []*Owned{in}, tx)
+	m.External = true
+	b, site, msg, panicked := e.W.Propose(0, types.Txs{CopyTx(tx)}, true)
+	if panicked {
+		e.C.HarnessTrouble("withdrawal block did not execute at %s: %s", site, msg)
+		e.Stop()
+		return ""
+	}
+	if e.commit(b, "external") == nil {
+		return ""
+	}
+	e.C.Probe("block-only-outputless-spend")
+	e.oracle(false)
+	for i := 0; i < after && !e.Stopped(); i++ {
+		if emptyAfter {
+			eb, site, msg, panicked := e.W.Propose(0, types.Txs{}, true)
+			if panicked {
+				e.C.HarnessTrouble("empty block did not execute at %s: %s", site, msg)
+				e.Stop()
+				return ""
+			}
+			e.commit(eb, "external")
+		} else if e.ProduceFromPool(e.W.MaxTxs()) == nil {
+			break
+		}
+		e.oracle(false)
+	}
+	if e.Stopped() {
+		return ""
+	}
+	if restart && !e.RestartNode(nil, false, "restart") {
+		return ""
+	}
+	// the same output again, through the mempool ...
+	pay := new(big.Int).Sub(in.Amount, e.U.FeeUU)
+	pay.Sub(pay, lkCoins(int64(1+pick%5)))
+	if pay.Cmp(lkCoins(1)) >= 0 {
+		if rtx, err := e.SpendTx(e.U.Wallets[in.Wallet], []*Owned{in}, 1+pick%3, pay, e.U.Wallets[pick%len(e.U.Wallets)], nil, pick); err == nil {
+			rm := e.noteSpend(e.record(nil, rtx, "respent"), []*Owned{in}, rtx)
+			sub := e.Submit(rm, false, false)
+			e.W.Finish(sub)
+			e.collect()
+			e.C.Evals(1)
+			if e.Stopped() {
+				return ""
+			}
+		}
+	}
+	// ... and in a block
+	e.byzTarget = in
+	e.ByzBlock("ki-later", t)
+	e.byzTarget = nil
+	return fmt.Sprintf("withdraw-all +%d blocks restart=%v", after, restart)
 }
